@@ -581,3 +581,104 @@ Proof.
       * cbn [comment_items item_toks app] in Hp3, Hn3. cbn [hd_type fst eol_tok] in Hn3. rewrite Hn3.
         eexists _, s3. split; [reflexivity|]. split; [|right; exact Hp3]. apply Hdoc; auto.
 Qed.
+
+(* ---- one fragment ----------------------------------------------------------------------------------- *)
+Lemma frag_items_head f0 : frag_lx f0 -> (forall d, f0 <> FDesc d) ->
+  exists p r, item_toks (frag_items f0) = p :: r /\
+    match f0 with
+    | FHeader _ | FAssign _ => fst p = IDENT \/ fst p = BOOL
+    | FComment t => p = etok t
+    | FClose _ => p = (RBRACE, [125])
+    | FDesc _ => False
+    end.
+Proof.
+  intros Hlx Hnd. destruct f0 as [h|a|d|t|t]; cbn [frag_items frag_lx] in *.
+  - rewrite item_toks_header. destruct Hlx as (Hr & _). destruct (ref_ptoks_head _ Hr) as (p & r & Hh & Hty).
+    rewrite Hh. eexists _, _. split; [reflexivity|exact Hty].
+  - rewrite item_toks_assign. destruct Hlx as (Hr & _). destruct (ref_ptoks_head _ Hr) as (p & r & Hh & Hty).
+    rewrite Hh. eexists _, _. split; [reflexivity|exact Hty].
+  - exfalso. apply (Hnd d). reflexivity.
+  - eexists _, _. split; reflexivity.
+  - eexists _, _. split; reflexivity.
+Qed.
+
+Theorem next_fragment_back f0 s rest : frag_lx f0 -> (forall d, f0 <> FDesc d) ->
+  pt s = item_toks (frag_items f0) ++ eol_tok :: rest ->
+  exists f s', next_fragment s = WOk (Some f) s' /\ fdoc_of f = fdoc_of f0 /\
+               (pt s' = rest \/ pt s' = eol_tok :: rest).
+Proof.
+  intros Hlx Hnd Hp. destruct (frag_items_head f0 Hlx Hnd) as (p & r & Hh & Hk).
+  assert (Hn : next_type s = fst p) by (rewrite next_type_pt, Hp, Hh; reflexivity).
+  unfold next_fragment. destruct f0 as [h|a|d|t|t]; cbn [frag_items frag_lx] in *.
+  - destruct (walk_statement_header_back h s rest Hlx Hp) as (f & s' & E & Hd & Hp').
+    rewrite Hn. destruct Hk as [-> | ->]; rewrite E; cbn [wbind]; exists f, s'; auto.
+  - destruct (walk_statement_assign_back a s rest Hlx Hp) as (f & s' & E & Hd & Hp').
+    rewrite Hn. destruct Hk as [-> | ->]; rewrite E; cbn [wbind]; exists f, s'; auto.
+  - contradiction.
+  - cbn [item_toks app] in Hp. destruct (pt_cons s _ _ Hp) as (t1 & rs & Hrs0 & Et & Hrs & Epop & Hn'). cbn [fst] in Hn'.
+    destruct Hlx as [Hty _]. rewrite Hn'.
+    destruct Hty as [-> | ->]; rewrite Epop; cbn [wbind]; eexists _, _; (split; [reflexivity|]);
+      (split; [cbn; rewrite Et; reflexivity|right; rewrite pt_mk; exact Hrs]).
+  - cbn [item_toks app] in Hp. destruct (pt_cons s _ _ Hp) as (t1 & rs & Hrs0 & Et & Hrs & Epop & Hn'). cbn [fst] in Hn'.
+    rewrite Hn', Epop. cbn [wbind]. eexists _, _. split; [reflexivity|]. split; [reflexivity|right; rewrite pt_mk; exact Hrs].
+Qed.
+
+(* ---- a description block: DESCRIPTION l1, EOL, DESCRIPTION l2, EOL, ... ----------------------- *)
+Fixpoint desc_ptoks_lines (ls : list (list N)) : list ptok :=
+  match ls with
+  | [] => []
+  | [l] => [(DESCRIPTION, l)]
+  | l :: r => (DESCRIPTION, l) :: eol_tok :: desc_ptoks_lines r
+  end.
+
+Lemma peek_type_pt n s : peek_type n s = match nth_error (pt s) n with Some p => fst p | None => EOF end.
+Proof. unfold peek_type, pt. rewrite nth_error_map. destruct (nth_error (wrest s) n); reflexivity. Qed.
+
+Lemma pop_description_loop_back : forall ls fuel acc s rest, ls <> [] ->
+  pt s = desc_ptoks_lines ls ++ rest ->
+  (* the block ends: what follows is not "EOL, DESCRIPTION" *)
+  (match rest with p :: q :: _ => ~ (fst p = EOL /\ fst q = DESCRIPTION) | _ => True end) ->
+  (length (wrest s) < fuel)%nat ->
+  exists d s', pop_description_loop fuel acc s = WOk d s' /\
+               map lit (dtoks d) = map lit acc ++ ls /\ dvalue d = join_with 10 (map lit acc ++ ls) /\ pt s' = rest.
+Proof.
+  induction ls as [|l r IH]; intros fuel acc s rest Hne Hp Hend Hf; [congruence|].
+  destruct fuel as [|f]; [lia|]. cbn [pop_description_loop].
+  destruct r as [|l2 r2].
+  - cbn [desc_ptoks_lines app] in Hp.
+    destruct (pt_cons s _ _ Hp) as (t & rs & Hrs0 & Et & Hrs & Epop & _). rewrite Epop. cbn [wbind].
+    assert (Hstop : (tt_eqb (peek_type 0 (mkW rs (Some t))) EOL && tt_eqb (peek_type 1 (mkW rs (Some t))) DESCRIPTION)%bool = false).
+    { rewrite !peek_type_pt, pt_mk, Hrs. destruct rest as [|p [|q rest']]; cbn; try reflexivity; try (apply andb_false_r).
+      destruct (tt_eqb (fst p) EOL) eqn:E1; [|reflexivity]. destruct (tt_eqb (fst q) DESCRIPTION) eqn:E2; [|reflexivity].
+      exfalso. apply Hend. split; apply tt_eqb_true; assumption. }
+    rewrite Hstop. eexists _, _. split; [reflexivity|]. cbn [dtoks dvalue]. rewrite map_app. cbn [map].
+    unfold etok in Et. injection Et as _ Hl. rewrite Hl. repeat split; auto.
+  - change (desc_ptoks_lines (l :: l2 :: r2)) with ((DESCRIPTION, l) :: eol_tok :: desc_ptoks_lines (l2 :: r2)) in Hp.
+    cbn [app] in Hp.
+    destruct (pt_cons s _ _ Hp) as (t & rs & Hrs0 & Et & Hrs & Epop & _). rewrite Epop. cbn [wbind].
+    assert (Hgo : (tt_eqb (peek_type 0 (mkW rs (Some t))) EOL && tt_eqb (peek_type 1 (mkW rs (Some t))) DESCRIPTION)%bool = true).
+    { rewrite !peek_type_pt, pt_mk, Hrs. cbn. destruct r2; reflexivity. }
+    rewrite Hgo.
+    assert (Hp1 : pt (mkW rs (Some t)) = eol_tok :: desc_ptoks_lines (l2 :: r2) ++ rest) by (rewrite pt_mk; exact Hrs).
+    destruct (pt_cons _ _ _ Hp1) as (te & rs2 & Hrs1 & _ & Hrs2 & Epop2 & _). rewrite Epop2. cbn [wbind].
+    destruct (IH f (acc ++ [t]) (mkW rs2 (Some te)) rest ltac:(discriminate)) as (d & s' & E & A & B & C).
+    + rewrite pt_mk. exact Hrs2.
+    + exact Hend.
+    + cbn [wrest] in *. rewrite Hrs0 in Hf. cbn in Hf. rewrite Hrs1 in Hf. cbn in Hf. lia.
+    + exists d, s'. split; [exact E|]. unfold etok in Et. injection Et as _ Hl.
+      rewrite map_app in A, B. cbn [map] in A, B. rewrite Hl, <- app_assoc in A, B. cbn [app] in A, B. auto.
+Qed.
+
+Theorem next_fragment_desc_back ls s rest : ls <> [] ->
+  pt s = desc_ptoks_lines ls ++ eol_tok :: rest ->
+  (match rest with p :: _ => fst p <> DESCRIPTION | [] => True end) ->
+  exists d s', next_fragment s = WOk (Some (FDesc d)) s' /\ dvalue d = join_with 10 ls /\ pt s' = eol_tok :: rest.
+Proof.
+  intros Hne Hp Hend. unfold next_fragment.
+  assert (Hn : next_type s = DESCRIPTION).
+  { rewrite next_type_pt, Hp. destruct ls as [|l [|l2 r]]; [congruence|reflexivity|reflexivity]. }
+  rewrite Hn. unfold pop_description.
+  destruct (pop_description_loop_back ls (S (length (wrest s))) [] s (eol_tok :: rest) Hne Hp) as (d & s' & E & A & B & C); [|lia|].
+  { destruct rest as [|q rest']; [exact I|]. intros [_ H]. apply Hend. exact H. }
+  rewrite E. cbn [wbind]. exists d, s'. cbn in B. auto.
+Qed.
